@@ -122,6 +122,10 @@ def directive_decode_task(ck, task):
                     for s_ in subterms(f_):
                         if s_.k == "op" and s_.a[0] == "%" and s_.a[2].k == "const":
                             mods.add(s_.a[2].a[0])
+                        # `% 2^k` is normalised to `& (2^k - 1)` by the term constructors
+                        if s_.k == "op" and s_.a[0] == "&" and s_.a[2].k == "const" and isinstance(s_.a[2].a[0], int) \
+                                and s_.a[2].a[0] > 0 and ((s_.a[2].a[0] + 1) & s_.a[2].a[0]) == 0 and "len(" in show(s_.a[1]):
+                            mods.add(s_.a[2].a[0] + 1)
         cons = f"a segment-request area that is not a multiple of {w2} octets (one start/end pair) is refused ({tag})"
         if w2 in mods:
             ck.proved("G-REFUSE", fn, cons, f"refusal on remaining % {w2} != 0")
